@@ -278,6 +278,17 @@ fn sub_case<C: Suite>(ctx: &mut Ctx, keys: &Keys<C>, holders: &[Id<C>], msg: &[u
     let r = frost::aggregate(&package, &shares, &keys.pubkeys);
     ensure!(ctx, matches!(r, Err(Error::IncorrectNumberOfShares)), "C03/coordinator-does-not-refuse", "aggregate with {} < t={} shares returned {:?}", k, t, r.as_ref().map(|_| "Ok(signature)"));
     ctx.label("honest:coordinator-refused");
+    // the re-randomized coordinator entry points refuse for the same reason (zero randomizer: the shares are the same session's)
+    {
+        use frost_rerandomized as rr;
+        let params = rr::RandomizedParams::<C>::from_randomizer(&vk, rr::Randomizer::from_scalar(zero::<C>()));
+        for (name, mode) in modes() {
+            let r = rr::aggregate_custom::<C>(&package, &shares, &keys.pubkeys, mode, &params);
+            ensure!(ctx, matches!(r, Err(Error::IncorrectNumberOfShares)), "C03/coordinator-does-not-refuse", "frost_rerandomized::aggregate_custom({name}) with {} < t={} shares returned {:?} instead of IncorrectNumberOfShares", k, t, r.as_ref().map(|_| "Ok(signature)"));
+        }
+        let r = rr::aggregate::<C>(&package, &shares, &keys.pubkeys, &params);
+        ensure!(ctx, matches!(r, Err(Error::IncorrectNumberOfShares)), "C03/coordinator-does-not-refuse", "frost_rerandomized::aggregate with {} < t={} shares returned {:?}", k, t, r.as_ref().map(|_| "Ok(signature)"));
+    }
 
     // (c) everybody lies, coordinator included: Some(lied) and the legacy None
     for pk_min in [Some(lied), None] {
